@@ -188,6 +188,12 @@ func c06Case(unit string, E uint16, phase int64, interf string) (string, *TimedC
 		tc.Steps = append(tc.Steps, TStep{At: tb + 100*ms, Client: 1, Cmd: hapi.Cmd{Type: 1, Req: 2, Key: 1, Id: 2, Timeout: 0xffff, TimeoutFlag: fMinute, Expried: 1}})
 		tc.Expect = []Expect{ex, {Req: 2, Kind: "granted", Lo: En - 100*ms, Hi: hi}}
 		tc.Horizon += 4 * sec
+	case "granted-after-wait":
+		// the hold is granted out of the wait queue 3.5 s after it was requested: the period runs from the grant
+		tc.Steps = []TStep{holder(4, 1500*ms), {At: tb, Client: 1, Cmd: hapi.Cmd{Type: 1, Req: 1, Key: 1, Id: 2, Timeout: 30, Expried: E, ExpriedFlag: unitFlag(unit)}},
+			{At: tb + 3500*ms, Client: 0, Cmd: U(5, 1, 1)}}
+		tc.Expect = []Expect{{Req: 1, Kind: "expried", Lo: En, Hi: hi, FromReq: 1}}
+		tc.Horizon = tb + 3500*ms + En + 4*sec
 	case "unlock-before":
 		tc.Steps = append(tc.Steps, TStep{At: tb + En - 300*ms, Client: 0, Cmd: U(3, 1, 1)})
 		tc.Expect = []Expect{{Req: 1, Kind: "never-expires"}}
@@ -266,7 +272,7 @@ func c06Cases(quick bool) []EnumCase {
 			}
 		}
 	}
-	inter := []string{"unlock-before", "relock-restarts", "update-lengthens", "update-shortens", "update-one-unit", "unlimited"}
+	inter := []string{"unlock-before", "relock-restarts", "update-lengthens", "update-shortens", "update-one-unit", "unlimited", "granted-after-wait"}
 	for _, E := range []uint16{2, 3, 6, 8, 9, 10, 11, 20} {
 		for _, ph := range phases {
 			for _, in := range inter {
@@ -329,7 +335,8 @@ func oracleHoldEndsOnce(r *EngRun) []explore.Violation {
 func init() {
 	enumCheck("C05", "exploration",
 		func(q bool) []*EnumPlan {
-			return []*EnumPlan{{Name: "timeout-classes", Cases: c05Cases, Eval: evalTimed("C05")}}
+			return []*EnumPlan{{Name: "timeout-classes", Cases: c05Cases, Eval: evalTimed("C05")},
+				{Name: "every-timeout-value", Cases: valueCases([]string{"timeout"}), Eval: evalValues("C05")}}
 		},
 		func(q bool) *SchedPlan {
 			cfg := hapi.Config{FastKeys: 1, Concurrent: 1}
@@ -351,7 +358,8 @@ func init() {
 
 	enumCheck("C06", "exploration",
 		func(q bool) []*EnumPlan {
-			return []*EnumPlan{{Name: "expiry-classes", Cases: c06Cases, Eval: evalTimed("C06")}}
+			return []*EnumPlan{{Name: "expiry-classes", Cases: c06Cases, Eval: evalTimed("C06")},
+				{Name: "every-expiry-value", Cases: valueCases([]string{"expiry", "expiry-via-queue"}), Eval: evalValues("C06")}}
 		},
 		func(q bool) *SchedPlan {
 			cfg := hapi.Config{FastKeys: 1, Concurrent: 1}
